@@ -290,7 +290,7 @@ def permEquiv (d : Nat) (neg : Bool) (k : Nat) (hk : k ≤ d) : Fin d ≃ Fin d 
 
 /-- in the rolled / flipped order `σ`, the matrix denoted by the root's fields is `U' diag(w) U'ᵀ` with the first `r`
 directions keeping their own root value and every other direction getting `const`; only `U Uᵀ = 1` is used -/
-theorem denote_root_fields [Field α] [BEq α] [Max α] {d r : Nat} (hr : r ≤ d) (pw : α → α) (neg : Bool)
+theorem denote_root_fields [Field α] [BEq α] [Max α] [LE α] [DecidableLE α] {d r : Nat} (hr : r ≤ d) (pw : α → α) (neg : Bool)
     (ps : Option Nat) (ridge : α) (e : Vec α d) (U : Mat α d d) (hU : toM U * (toM U)ᵀ = 1) :
     let F := lowRankRootFields hr pw neg ps ridge e U
     let σ := perm d neg (d - ps.getD d)
@@ -326,7 +326,7 @@ theorem denote_root_fields [Field α] [BEq α] [Max α] {d r : Nat} (hr : r ≤ 
 
 /-- `const` is the sum of the root values of all directions after the first `r` (in rolled / flipped order),
 divided by `real_dim - r` (by 1 when that is not positive) -/
-theorem const_root_fields [Field α] [BEq α] [Max α] {d r : Nat} (hr : r ≤ d) (pw : α → α) (neg : Bool)
+theorem const_root_fields [Field α] [BEq α] [Max α] [LE α] [DecidableLE α] {d r : Nat} (hr : r ≤ d) (pw : α → α) (neg : Bool)
     (ps : Option Nat) (ridge : α) (e : Vec α d) (U : Mat α d d) :
     (lowRankRootFields hr pw neg ps ridge e U).const =
       (∑ k : Fin d, if r ≤ k.val then invEigs pw ridge (maskedEigs ps e) (perm d neg (d - ps.getD d) k) else 0)
@@ -349,7 +349,7 @@ theorem perm_neg (d p : Nat) (hp : p ≤ d) (i : Fin d) :
     rw [this, Nat.add_mod_right, Nat.mod_eq_of_lt (by omega)]
 
 /-- with padding, the root values at the positions `k ≥ padding_start` of the new order are zero -/
-theorem invE_padded_zero [Field α] [BEq α] [LawfulBEq α] [Max α] {d : Nat} (pw : α → α) (neg : Bool) (p : Nat) (hp : p ≤ d)
+theorem invE_padded_zero [Field α] [BEq α] [LawfulBEq α] [Max α] [LE α] [DecidableLE α] {d : Nat} (pw : α → α) (neg : Bool) (p : Nat) (hp : p ≤ d)
     (ridge : α) (e : Vec α d) (k : Fin d) (hk : p ≤ k.val) :
     invEigs pw ridge (maskedEigs (some p) e) (perm d neg (d - (some p).getD d) k) = 0 := by
   have hlt := k.isLt
@@ -360,11 +360,11 @@ theorem invE_padded_zero [Field α] [BEq α] [LawfulBEq α] [Max α] {d : Nat} (
   have hm : maskedEigs (some p) e (perm d neg (d - p) k) = 0 := by
     simp only [maskedEigs, ixMask]
     rw [if_neg (by omega), mul_zero]
-  simp only [Option.getD_some, invEigs, hm, beq_self_eq_true, if_true]
+  simp only [Option.getD_some, invEigs, hm, beq_self_eq_true, Bool.true_or, if_true]
 
 
 /-- with `padding_start = p`, `r < p ≤ d`: `const` is the MEAN over the `p - r` unpadded, not retained directions -/
-theorem const_is_mean_unpadded [Field α] [BEq α] [LawfulBEq α] [Max α] {d r : Nat} (hr : r ≤ d) (pw : α → α) (neg : Bool)
+theorem const_is_mean_unpadded [Field α] [BEq α] [LawfulBEq α] [Max α] [LE α] [DecidableLE α] {d r : Nat} (hr : r ≤ d) (pw : α → α) (neg : Bool)
     (p : Nat) (hrp : r < p) (hp : p ≤ d) (ridge : α) (e : Vec α d) (U : Mat α d d) :
     (lowRankRootFields hr pw neg (some p) ridge e U).const =
       (∑ k : Fin d, if r ≤ k.val ∧ k.val < p
@@ -389,13 +389,47 @@ theorem invEigs_exact [Field α] [LinearOrder α] [IsStrictOrderedRing α] [BEq 
   have hpos : 0 < e i := lt_of_lt_of_le hridge hi
   have hne : (e i == 0) = false := by
     rw [beq_eq_false_iff_ne]; exact ne_of_gt hpos
-  simp only [invEigs, hne]
+  have hle : ¬ max (e i) ridge ≤ 0 := by
+    rw [max_eq_left hi]; exact not_le.mpr hpos
+  simp only [invEigs, hne, hle, decide_false, Bool.or_self, Bool.false_eq_true, if_false]
   rw [max_eq_left hi]
   exact hpw _ hpos
 
+/-- the same with a ZERO ridge for a strictly positive eigenvalue (`matrix_epsilon = 0`) -/
+theorem invEigs_exact_pos [Field α] [LinearOrder α] [IsStrictOrderedRing α] [BEq α] [LawfulBEq α] {d : Nat} (pw : α → α) (p : Nat)
+    (hpw : ∀ x : α, 0 < x → pw x ^ p * x = 1) (ridge : α) (e : Vec α d) (i : Fin d)
+    (hpos : 0 < e i) (hi : ridge ≤ e i) : invEigs pw ridge e i ^ p * e i = 1 := by
+  have hne : (e i == 0) = false := by
+    rw [beq_eq_false_iff_ne]; exact ne_of_gt hpos
+  have hle : ¬ max (e i) ridge ≤ 0 := by
+    rw [max_eq_left hi]; exact not_le.mpr hpos
+  simp only [invEigs, hne, hle, decide_false, Bool.or_self, Bool.false_eq_true, if_false]
+  rw [max_eq_left hi]
+  exact hpw _ hpos
+
+/-- zero ridge (D26): a non-positive eigenvalue (an exact zero, or a rounding-negative one) contributes 0 -/
+theorem invEigs_zero_ridge [Field α] [LinearOrder α] [BEq α] {d : Nat} (pw : α → α)
+    (ridge : α) (hridge : ridge ≤ 0) (e : Vec α d) (i : Fin d) (hi : e i ≤ 0) : invEigs pw ridge e i = 0 := by
+  have hle : max (e i) ridge ≤ 0 := max_le hi hridge
+  simp only [invEigs, hle, decide_true, Bool.or_true, if_true]
+
+/-- the real power is only ever evaluated at a strictly positive argument (where `x ^ (-1/p)` is finite):
+every root value is either `0` or `pw x` for some `x > 0` -/
+theorem invEigs_pw_positive [Field α] [LinearOrder α] [BEq α] {d : Nat} (pw : α → α)
+    (ridge : α) (e : Vec α d) (i : Fin d) :
+    invEigs pw ridge e i = 0 ∨ (0 < max (e i) ridge ∧ invEigs pw ridge e i = pw (max (e i) ridge)) := by
+  by_cases hle : max (e i) ridge ≤ 0
+  · left
+    simp only [invEigs, hle, decide_true, Bool.or_true, if_true]
+  · by_cases h0 : (e i == 0) = true
+    · left
+      simp only [invEigs, h0, Bool.true_or, if_true]
+    · right
+      refine ⟨not_le.mp hle, ?_⟩
+      simp only [invEigs, h0, hle, decide_false, Bool.or_self, Bool.false_eq_true, if_false]
 
 /-- unpacking the packed root gives back the fields (unless `padding_start == 0`, where the root is all zeros) -/
-theorem lowRankRoot_unpack [Field α] [BEq α] [LawfulBEq α] [Max α] {d r : Nat} (h : r + 2 < d) (pw : α → α) (neg : Bool)
+theorem lowRankRoot_unpack [Field α] [BEq α] [LawfulBEq α] [Max α] [LE α] [DecidableLE α] {d r : Nat} (h : r + 2 < d) (pw : α → α) (neg : Bool)
     (ps : Option Nat) (hps : ps ≠ some 0) (ridge : α) (e : Vec α d) (U : Mat α d d) :
     lowRankUnpack h (lowRankRoot h pw neg ps ridge e U) =
       lowRankRootFields (r := r) (by omega) pw neg ps ridge e U := by
